@@ -44,7 +44,7 @@ def unit_fixed_pressure_call(twin=False):
     q = "Phreeqc::calc_gas_pressures"
     fn = A.find_function(MODEL, q)
     r = U.new_unit("C19.calc_gas_pressures.EOS_at_gas_phase_pressure", MODEL, q, fn)
-    ifs = [x for x in A.body_of(fn)["inner"] if x.get("kind") == "IfStmt" and text_of(MODEL, x["inner"][0]) == "gas_phase_ptr->Get_type()==cxxGasPhase::GP_PRESSURE"]
+    ifs = [x for x in A.body_of(fn)["inner"] if x.get("kind") == "IfStmt" and len(x["inner"]) >= 2 and "calc_PR(" in text_of(MODEL, x["inner"][1])]     # the split that evaluates the EOS, whatever its condition
     if len(ifs) != 1:
         raise Undecided("fixed-pressure / fixed-volume split of calc_gas_pressures not found")
     c = ctx(functional=("Get_type", "Get_total_p", "Get_total_moles", "Get_volume", "Get_v_m"))
